@@ -431,6 +431,32 @@ def gen_cases(ck):
             blk = [entry4(rng), ["1"]] if rng.random() < 0.5 else [["1"], entry4(rng)]
             layer = run[:pos] + blk + run[pos:] + [entry2(rng, ident=True)]
             add("ones_split_thresholds", n, [layer], backends=[("ones", 0, 0)])
+    # 3b. the 19-term (4-way) split with identities around the run, n = 20..21 (thorough; quick keeps one n = 20 layout):
+    #     both split sites (:529 when an identity follows the run, :589 at the end of the layer), runs of 18 (3-way, just
+    #     below the threshold) and 19 terms, a 19-term run made of 18 2x2 and one 4x4 term, and a second run after the split
+    def nonid_run(r):
+        run = [entry2(rng, "perm") for _ in range(r)]
+        for e in run:
+            if e[1] == ID2:
+                e[1] = [(0, 0), (1, 0), (1, 0), (0, 0)]
+        return run
+    idn = lambda: entry2(rng, ident=True)
+    lay19 = [("I18I", lambda: [idn()] + nonid_run(18) + [idn()])]
+    if not quick:
+        lay19 += [("I19I", lambda: [idn()] + nonid_run(19) + [idn()]),
+                  ("II19", lambda: [idn(), idn()] + nonid_run(19)),
+                  ("19II", lambda: nonid_run(19) + [idn(), idn()]),
+                  ("19IX", lambda: nonid_run(19) + [idn()] + nonid_run(1)),
+                  ("XI19", lambda: nonid_run(1) + [idn()] + nonid_run(19)),
+                  ("I19", lambda: [idn()] + nonid_run(19)),
+                  ("19I", lambda: nonid_run(19) + [idn()]),
+                  ("18+4x4,I", lambda: (lambda run, pos, blk: run[:pos] + blk + run[pos:] + [idn()])(
+                      nonid_run(18), rng.randint(0, 18), [entry4(rng, "perm"), ["1"]] if rng.random() < 0.5 else [["1"], entry4(rng, "perm")])),
+                  ("I,18+4x4", lambda: (lambda run, pos, blk: [idn()] + run[:pos] + blk + run[pos:])(
+                      nonid_run(18), rng.randint(0, 18), [entry4(rng, "perm"), ["1"]] if rng.random() < 0.5 else [["1"], entry4(rng, "perm")]))]
+    for _, f in lay19:
+        layer = f()
+        add("ones_split19_masks", len(layer), [layer], backends=[("ones", 0, 0)])
     # 4. EfficientBackend chunk settings (min, opt) in {1..5}^2, n over every regime switch
     for n in range(4, (11 if quick else 14)):
         for mn in range(1, 6):
@@ -455,7 +481,10 @@ def gen_cases(ck):
     lay = lambda n: [layer_of_shape(rng, ["2"] * n, kind="perm")]
     add("assert_boundary", 13, lay(13), 1, 1, backends=[("eff", 1, 1)])
     add("assert_boundary", 14, lay(14), 1, 1, backends=[("eff", 1, 1)], domain=False)
-    add("assert_boundary", 14, lay(14), 2, 1, backends=[("eff", 2, 1)], domain=False)
+    add("assert_boundary", 14, lay(14), 2, 1, backends=[("eff", 2, 1)])      # 14 slices, last merged: 13 operands (eff_nchunks 14 2 1 = 13)
+    add("assert_boundary", 15, lay(15), 2, 1, backends=[("eff", 2, 1)], domain=False)   # 14 operands: the assertion fires (C01_eff_assertion_exact)
+    add("assert_boundary", 14, lay(14), 2, 2, backends=[("eff", 2, 2)])      # 7 operands
+    add("assert_boundary", 16, lay(16), 5, 4, backends=[("eff", 5, 4)])      # opt < min, full-size last slice merged: 3 operands
     add("assert_boundary", 8, lay(8), 3, 0, backends=[("eff", 3, 0)], domain=False)
     for b in ("std", "eff", "ones"):
         cases.append(mk("malformed", b, 3, [], gen_psi(rng, 3), domain=False))
@@ -467,6 +496,103 @@ def gen_cases(ck):
     add("malformed", 3, [lay(3)[0], lay(2)[0]], domain=False)
     add("malformed", 7, [[["1"]] * 7], domain=False)
     return cases
+
+
+# ------------------------------------------------------------------------------------------------ _chunk_list operand count
+CHUNK_PRELUDE = r"""
+From Coq Require Import List Bool Arith.
+Require Import QG.Base.Res QG.Model.Backends QG.Proofs.BackendsEffFull.
+Import ListNotations.
+Definition err_code (e : err) : nat :=
+  match e with IndexError => 0 | ValueError => 1 | AssertionError => 2 | AttributeError => 3 | TypeError => 4
+             | FileNotFoundError => 5 | KeyError => 6 | OutOfFuel => 7 end.
+Fixpoint leqb (a b : list nat) : bool :=
+  match a, b with [] , [] => true | x :: a', y :: b' => Nat.eqb x y && leqb a' b' | _, _ => false end.
+(* (n, min, opt, expected): the model's chunks of [0..n-1] have the implementation's lengths, concatenate to the list, and
+   in the domain of C01_chunk_count their number is eff_nchunks n min opt; or the same exception *)
+Definition check1 (c : nat * nat * nat * (list nat + nat)) : bool :=
+  let '(n, mn, op, x) := c in
+  match chunk_list (seq 0 n) mn op, x with
+  | Ok cs, inl lens => leqb (map (@length nat) cs) lens && leqb (concat cs) (seq 0 n)
+                       && (if (1 <=? op) && (2 * op <=? n) then Nat.eqb (length cs) (eff_nchunks n mn op) else true)
+  | Err e, inr k => Nat.eqb (err_code e) k
+  | _, _ => false
+  end.
+Fixpoint bad (i : nat) (cs : list (nat * nat * nat * (list nat + nat))) : list nat :=
+  match cs with [] => [] | c :: r => if check1 c then bad (S i) r else i :: bad (S i) r end.
+"""
+
+
+def nchunks_formula(n, mn, op):
+    """eff_nchunks of Props/C01.v (C01_eff_nchunks_def), transcribed"""
+    q, r = divmod(n, op)
+    cnt = q if r == 0 else q + 1
+    last = op if r == 0 else r
+    return cnt - 1 if last < mn else cnt
+
+
+def run_chunk_list(impl, n, mn, op):
+    try:
+        cs = impl.B.EfficientBackend(max(n, 1), mn, op)._chunk_list(list(range(n)), mn, op)
+    except Exception as e:  # noqa
+        return ("err", type(e).__name__)
+    return ("ok", cs)
+
+
+def chunk_count_cases(ck):
+    quick = ck.tier == "quick"
+    grid = [(n, mn, op) for n in range(0, 41 if quick else 61) for mn in range(0, 8) for op in range(0, 10)]
+    grid += [(n, mn, op) for n in (52, 53, 54, 55, 64, 81, 100) for mn in (1, 2, 3, 7, 13, 30) for op in (1, 2, 3, 4, 9, 13, 26, 27, 50)]
+    return grid
+
+
+def chunk_count_check(ck, impl):
+    """returns (coq shards [(name, body, idxs)], settings, [(setting, what)] where the implementation deviates from the closed formula)"""
+    grid = chunk_count_cases(ck)
+    enc, fails = [], []
+    for (n, mn, op) in grid:
+        kind, val = run_chunk_list(impl, n, mn, op)
+        indom = op >= 1 and 2 * op <= n
+        ck.count("chunk_count", 1, key=(n, mn, op) if indom else None,
+                 sample={"n": n, "min": mn, "opt": op, "chunks": [len(c) for c in val] if kind == "ok" else val})
+        if kind == "ok":
+            lens = [len(c) for c in val]
+            enc.append("(%d, %d, %d, inl %s)" % (n, mn, op, coq_list([str(x) for x in lens])))
+            if indom:   # independent of the model: partition of the list, none empty, count = closed formula
+                flat = [x for c in val for x in c]
+                if flat != list(range(n)) or any(not c for c in val) or len(val) != nchunks_formula(n, mn, op):
+                    fails.append(((n, mn, op), "EfficientBackend._chunk_list(range(%d), %d, %d) returned chunk lengths %s, expected %d non-empty chunks partitioning the list"
+                                  % (n, mn, op, lens, nchunks_formula(n, mn, op))))
+        else:
+            if indom:
+                fails.append(((n, mn, op), "EfficientBackend._chunk_list(range(%d), %d, %d) raised %s on in-domain input" % (n, mn, op, val)))
+            enc.append("(%d, %d, %d, inr %d)" % (n, mn, op, ERRS.index(val) if val in ERRS else 7))
+    shards = []
+    for k in range(0, len(enc), 500):
+        body = CHUNK_PRELUDE + "Definition cases : list (nat * nat * nat * (list nat + nat)) :=\n " + coq_list(enc[k:k + 500]) + ".\n"
+        body += "Definition result := bad 0 cases.\nEval vm_compute in result.\n"
+        shards.append(("c01_chunks_%d" % (k // 500), body, list(range(k, min(k + 500, len(enc))))))
+    return shards, grid, fails
+
+
+def chunk_probe(ck, impl, settings):
+    """a deviating chunk rule is a violation of the property only if some statevector call goes wrong: search the deviating
+    settings (many-chunk regime, n <= 16) with the direct oracle; returns (case, why) or None"""
+    tried = 0
+    for (n, mn, op) in sorted(settings):
+        if not (4 <= n <= 16 and mn >= 1 and op >= 1 and 2 * op <= n and 2 * nchunks_formula(n, mn, op) <= 26):
+            continue
+        tried += 1
+        if tried > 60:
+            break
+        for p2 in (0.0, 0.4):
+            layers = [layer_of_shape(ck.rng, rand_shape(ck.rng, n, p2), pid=0.1, kind="perm")]
+            case = mk("chunk_probe", "eff", n, layers, gen_psi(ck.rng, n), mn, op)
+            why = oracle_check(impl, case, impl.run(case), ck.rng, extra=False)
+            ck.count("oracle_tensordot", 1)
+            if why:
+                return case, why
+    return None
 
 
 # ------------------------------------------------------------------------------------------------ main
@@ -591,6 +717,13 @@ def main(argv):
 
     if ck.replay:
         doc = json.load(open(ck.replay))["replay"]
+        if "chunk" in doc:
+            n, mn, op = doc["chunk"]
+            kind, val = run_chunk_list(impl, n, mn, op)
+            lens = [len(c) for c in val] if kind == "ok" else val
+            okc = kind == "ok" and [x for c in val for x in c] == list(range(n)) and all(val) and len(val) == nchunks_formula(n, mn, op)
+            print("replay: _chunk_list(range(%d), %d, %d) ->" % (n, mn, op), lens, "| expected", nchunks_formula(n, mn, op), "chunks |", "holds" if okc else "VIOLATED")
+            return 0 if okc else 1
         if "layers" not in doc:
             print("replay names a proof / correspondence obligation, nothing to execute:", doc.get("theorem") or doc.get("correspondence"))
             return 0
@@ -659,6 +792,19 @@ def main(argv):
                      if kind == "layered" else "BinaryBackend", why, json.dumps(short(case))),
                   dict(describe(case), why=why, check=kind))
 
+    # the operand count of _chunk_list (hypothesis of C01_eff_spec): implementation vs closed formula vs model vs eff_nchunks in Coq
+    chunk_shards, chunk_grid, chunk_fail = chunk_count_check(ck, impl)
+    if chunk_fail and not oracle_fail:
+        hit = chunk_probe(ck, impl, [st for st, _ in chunk_fail])
+        if hit:
+            case, why = hit
+            oracle_fail = (case, why, "layered")
+            ck.report("oracle", "EfficientBackend(%d,%d,%d) violates the layered-product specification: %s; input %s"
+                      % (case["n"], case["mn"], case["op"], why, json.dumps(short(case))), dict(describe(case), why=why, check="layered"))
+        else:
+            ck.report("corr-chunks", "%s (%d settings deviate from eff_nchunks, the operand count in the hypothesis of C01_eff_spec); the property's own oracle passes on every explored input"
+                      % (chunk_fail[0][1], len(chunk_fail)), {"correspondence": "C01 chunk_count", "chunk": list(chunk_fail[0][0])}, False)
+
     # model side, inside Coq: shards balanced by estimated cost
     def weight(case):
         if case["cmp"] != "vec":
@@ -681,7 +827,10 @@ def main(argv):
         shards.append(("c01_%d" % k, body, idxs))
     mismatches = []
     t_coq = time.time()
-    for (name, rc, out2), (_, _, idxs) in zip(ck.coq_eval_many([(a, b) for a, b, _ in shards], timeout=1100), shards):
+    chunk_mismatches = []
+    nlay = len(shards)
+    shards = shards + chunk_shards
+    for k, ((name, rc, out2), (_, _, idxs)) in enumerate(zip(ck.coq_eval_many([(a, b) for a, b, _ in shards], timeout=1100), shards)):
         if rc != 0:
             mismatches.append(("coq-failed", name, out2[-600:]))
             continue
@@ -689,6 +838,9 @@ def main(argv):
         loc = [int(x) for x in txt.split(":")[0].replace("=", "").replace("[", " ").replace("]", " ").replace(";", " ").replace("%nat", "").split()] if txt else [-1]
         for i in loc:
             gi = idxs[i]
+            if k >= nlay:
+                chunk_mismatches.append(chunk_grid[gi])
+                continue
             if not cases[gi]["domain"]:   # outside the property's domain: informational only
                 ck.notes.append("model and implementation differ on the out-of-domain input %s -> %s (not a violation)"
                                 % (json.dumps(short(cases[gi])), results[gi].get("err") or results[gi]["kind"]))
@@ -696,7 +848,9 @@ def main(argv):
                 mismatches.append(("mismatch", gi, None))
     ck.extra["coq_wall_s"] = round(time.time() - t_coq, 1)
     ck.oblige("correspondence model=implementation (vector, contract strings, operand shapes, exception) on %d cases" % len(cases), not mismatches)
+    ck.oblige("correspondence _chunk_list: model chunk lengths = implementation, count = eff_nchunks (Coq) on %d settings" % len(chunk_grid), not chunk_mismatches)
     ck.oblige("direct oracle (tensordot slot application, psi0 unchanged, linearity, BinaryBackend) on the implementation", oracle_fail is None)
+    ck.oblige("correspondence _chunk_list: implementation = closed formula eff_nchunks (non-empty chunks partitioning the list)", not chunk_fail)
     ck.exhaustive = False
     ck.extra["exhaustive_part"] = ("all layer shapes (block positions x placeholder sides) for n<=%d; all identity masks of one-qubit layers for n in %s"
                                    % ((6, "{5,7,8}") if ck.tier == "quick" else (7, "{5..10}")))
@@ -704,6 +858,11 @@ def main(argv):
 
     if not proofs_ok and not oracle_fail:
         ck.report("proof:" + str(failing), "proof obligation no longer checks: %s" % failing, {"theorem": failing, "log": out[-1500:]}, False)
+    if chunk_mismatches and not oracle_fail and not chunk_fail:
+        n_, mn_, op_ = chunk_mismatches[0]
+        ck.report("corr-chunks", "model chunk_list / eff_nchunks and EfficientBackend._chunk_list disagree (%d settings) e.g. on (n, min, opt) = (%d, %d, %d): implementation gave %s"
+                  % (len(chunk_mismatches), n_, mn_, op_, str(run_chunk_list(impl, n_, mn_, op_))[:200]),
+                  {"correspondence": "C01 chunk_count", "setting": [n_, mn_, op_]}, False)
     if mismatches and not oracle_fail:
         kind, where, info = mismatches[0]
         if kind == "mismatch":
